@@ -1327,6 +1327,7 @@ class Builder:
                     if len(pending_commands) >= 3 and (
                         all(isinstance(cmd, ICmd) for cmd in pending_commands[-3:])
                         and pending_commands[-3].instruction == GenericInstr.SET  # type: ignore
+                        and pending_commands[-3].operands[1] == virtual_address  # type: ignore
                         and pending_commands[-2].instruction == GenericInstr.QALLOC  # type: ignore
                         and pending_commands[-1].instruction == GenericInstr.INIT  # type: ignore
                     ):
